@@ -357,6 +357,12 @@ func init() {
 	reg("(time.Time).Equal", nil, func(fr *Frame, st *State, a []*Val, cc *ssa.CallCommon, pos token.Pos) (*Val, *State) {
 		return boolVal(Eq(timeNano(a[0]), timeNano(a[1]))), st
 	})
+	// hash.Hash.Sum(b): appends a digest of at least 16 bytes (all hashes used here produce 20..64 bytes); other effects unknown
+	reg("(hash.Hash).Sum", []string{"S:byte"}, func(fr *Frame, st *State, a []*Val, cc *ssa.CallCommon, pos token.Pos) (*Val, *State) {
+		ln := Fresh("hash.sum#len", SInt)
+		fr.C.addFact(And(Le(Add(a[1].Len, Num(16)), ln), Le(ln, Add(a[1].Len, Num(64)))))
+		return fr.makeSlice(st, res0(cc), ln, ln), st
+	})
 	reg("bytes.Equal", nil, func(fr *Frame, st *State, a []*Val, cc *ssa.CallCommon, pos token.Pos) (*Val, *State) {
 		arr := st.heapGet("S:byte", SArr(SInt, SArr(SInt, SInt)))
 		x, y := a[0], a[1]
